@@ -226,6 +226,12 @@ type Instr struct {
 	Rows int       `json:"rows,omitempty"`
 	// second operand vector of VdotV given as a plain DenseFloat64Vector
 	PlainVec2 bool `json:"plain_vec2,omitempty"`
+	// Dst: "" = the result goes to a destination register of its own (SSA form); "a" / "b" = the
+	// destination IS the object of operand A / B (in-place update t.Mul(t, x), t.Sub(x, t),
+	// t.Exp(t)); "ab" = both operand slots hold one object which is also the destination
+	// (t.Mul(t, t)). The overwritten name (variable or register) is dead afterwards, so the
+	// reference semantics are those of the same program in SSA form.
+	Dst string `json:"dst,omitempty"`
 }
 
 func mkInstr(op int) Instr { return Instr{Op: op, Name: ops[op].Name, Par: ops[op].Par} }
@@ -238,13 +244,28 @@ func (in *Instr) resolve() error {
 	return nil
 }
 
+// target: the operand whose object receives the result of an in-place instruction.
+func (in *Instr) target() (Operand, bool) {
+	switch in.Dst {
+	case "a", "ab":
+		return in.A, true
+	case "b":
+		return in.B, true
+	}
+	return Operand{}, false
+}
+
 func (in Instr) String() string {
 	o := ops[in.Op]
+	d := ""
+	if in.Dst != "" {
+		d = "{dst=" + in.Dst + "}"
+	}
 	switch o.Kind {
 	case Unary:
-		return fmt.Sprintf("%v(%v)", o, in.A)
+		return fmt.Sprintf("%v(%v)%s", o, in.A, d)
 	case Binary:
-		return fmt.Sprintf("%v(%v,%v)", o, in.A, in.B)
+		return fmt.Sprintf("%v(%v,%v)%s", o, in.A, in.B, d)
 	}
 	s := fmt.Sprintf("%v(%v", o, in.Vec)
 	if in.Vec2 != nil {
@@ -281,7 +302,15 @@ type Case struct {
 	X       []float64 `json:"x"`
 	XS      []string  `json:"x_special,omitempty"` // non-finite coordinates
 	Pollute int       `json:"pollute"`             // 0 fresh registers; 1/2: registers and scratch reused from an earlier order-1/2 computation
+	// Stale 1/2: the variable objects themselves served as result registers of an earlier order-1/2
+	// computation over the same number of variables (they still carry its gradient / Hessian) and are
+	// activated AGAIN; Act: through which route ("" = Variables on fresh objects)
+	Stale int    `json:"stale_variables,omitempty"`
+	Act   string `json:"activate,omitempty"`
 }
+
+// the routes by which scalars become variables
+var actRoutes = []string{"Variables", "SetVariable", "vector.Variables", "matrix.Variables"}
 
 func (c *Case) encodeX() {
 	c.XS = nil
